@@ -10,12 +10,22 @@ from . import conncheck
 COQ_TARGETS = ["Corr/RespCorr.vo", "Corr/ConnCorr.vo"]
 
 
+def _max_depth():
+    """MAX_ARRAY_DEPTH as regenerated from resp.rs (T1)"""
+    import re, os
+    try:
+        txt = open(os.path.join(C.COQ, "Generated", "Consts.v")).read()
+        return int(re.search(r"MAX_ARRAY_DEPTH : Z := (\d+)", txt).group(1))
+    except Exception:
+        return 128
+
+
 def run(ctx):
     bins = C.harness_build(ctx, "srv", ["resp"])
     if not bins:
         return
     nframes = 400 if ctx.tier == "quick" else 12000
-    out = C.run_harness(ctx, bins["resp"], ["--mode", "frames", "--seed", ctx.seed + 77, "--cases", nframes])
+    out = C.run_harness(ctx, bins["resp"], ["--mode", "frames", "--seed", ctx.seed + 77, "--cases", nframes, "--max-depth", _max_depth()])
     frames = [json.loads(l) for l in out.splitlines() if l.startswith("{")]
     pterms, sterms = [], []
     kinds = {}
